@@ -361,30 +361,34 @@ class JSObject:
 
     def get(self, key: str) -> JSValue:
         """Get a property value (does not invoke getters - use get_property for that)."""
-        if key in self._properties:
-            return self._properties[key]
-        if self._prototype is not None:
-            return self._prototype.get(key)
+        # (a loop, not recursion: a prototype chain can be longer than the host stack)
+        link = self
+        while link is not None:
+            if key in link._properties:
+                return link._properties[key]
+            link = link._prototype
         return UNDEFINED
 
     def get_getter(self, key: str) -> Optional[Any]:
         """Get the getter function for a property, if any."""
-        if key in self._getters:
-            return self._getters[key]
-        if key in self._properties or key in self._setters:
-            return None  # the nearest property of that name wins: it shadows inherited accessors
-        if self._prototype is not None:
-            return self._prototype.get_getter(key)
+        link = self
+        while link is not None:
+            if key in link._getters:
+                return link._getters[key]
+            if key in link._properties or key in link._setters:
+                return None  # the nearest property of that name wins: it shadows inherited accessors
+            link = link._prototype
         return None
 
     def get_setter(self, key: str) -> Optional[Any]:
         """Get the setter function for a property, if any."""
-        if key in self._setters:
-            return self._setters[key]
-        if key in self._properties or key in self._getters:
-            return None  # shadowed by a nearer property of that name
-        if self._prototype is not None:
-            return self._prototype.get_setter(key)
+        link = self
+        while link is not None:
+            if key in link._setters:
+                return link._setters[key]
+            if key in link._properties or key in link._getters:
+                return None  # shadowed by a nearer property of that name
+            link = link._prototype
         return None
 
     def define_getter(self, key: str, getter: Any) -> None:
